@@ -346,12 +346,21 @@ fn run_check(args: vcore::Args) -> ! {
     let drvs = drivers();
     rep.rule(
         "every plan = (family, driver, [exit mode,] step sequence of length <= depth with a 'stop' alternative at every position, parameters chosen at first use) \
-         is enumerated by vcore::explore over a pure planner (enabledness depends on the commanded history only) and executed once on the real compio-process/\
-         compio-runtime/compio-driver code with a fresh runtime and a fresh child process, followed by a canonical epilogue (deliver everything, end the child, read \
-         to EOF, wait). states = executions; transitions = harness steps incl. epilogue; distinct_nontrivial = distinct sequences of per-step observation classes",
+         is enumerated by vcore::explore over a pure planner (enabledness depends on the commanded history only, so the plan list is computed before anything runs) \
+         and executed once on the real compio-process/compio-runtime/compio-driver code with a fresh runtime, a fresh runtime thread and a fresh child process, \
+         followed by a canonical epilogue (deliver everything, end the child, read to EOF, wait) judged by the same oracle. Plans are distributed over worker \
+         processes (one controller thread each); the pidfd build of compio-process explores the wait-related families the same way. Every violation class is \
+         re-executed twice from its choice list before it is reported. states = executions; transitions = harness steps incl. epilogue; distinct_nontrivial = \
+         distinct outcome classes (per-step observation classes of the enumerated part + final byte totals and status)",
     );
-    rep.assume("the child's stdio descriptors are O_NONBLOCK on the child's side only; the child acts only on harness commands (control socket) and acks each");
+    rep.assume("the child's stdio descriptors are O_NONBLOCK on the child's side only; the child acts only on harness commands (control socket) and acks each; a pending child write continues after every harness step, like a writer blocked in write(2)");
     rep.assume("Linux pipe semantics (capacity 65536, POLLOUT = a free slot) are the real kernel's, not modelled");
+    rep.assume(
+        "owned nondeterminism: completions are harvested with zero-timeout polls only; completions the harness itself enabled (data acked by the child, write end closed, \
+         child dead) are awaited with a watchdog; 'wait stays pending while the child lives' is a negative observation with a fixed grace period. NOT owned: when the kernel \
+         executes an io_uring read/write that was submitted before the peer acted (it runs concurrently with the child's command) - the split of the bytes over the following \
+         observations is then timing dependent; the oracle (position-coded streams, totals) is insensitive to it and the outcome classes abstract from it",
+    );
     for t in ["Rout:P", "Rout:short", "Rout:full", "Rout:eof", "Rerr:eof", "WI:P", "WI:full", "WT:P", "WT:exit0", "WT:exit255", "WT:sig15", "WT:sig9", "WO:P", "WO:sig9", "Cout:part", "CI:full"] {
         rep.must_reach(t);
     }
